@@ -10,6 +10,7 @@ import (
 
 	"golang.org/x/tools/go/ssa"
 
+	"verif/internal/absint"
 	"verif/internal/load"
 	"verif/internal/pt"
 	"verif/internal/rep"
@@ -181,10 +182,16 @@ func phiCounterBound(v ssa.Value) (lo, hi int64, ok bool) {
 		return 0, 0, false
 	}
 	var init int64 = -1 << 62
+	initHi := int64(-1 << 62)
 	step := int64(0)
 	for _, e := range ph.Edges {
 		if c, isC := e.(*ssa.Const); isC && c.Value != nil {
 			init = c.Int64()
+			initHi = init
+		} else if prm, isP := e.(*ssa.Parameter); isP {
+			if l, h, okB := affineBound(prm, 1); okB {
+				init, initHi = l, h
+			}
 		} else if bo, isB := e.(*ssa.BinOp); isB && (bo.Op == token.ADD || bo.Op == token.SUB) && bo.X == ph {
 			if c, isC := bo.Y.(*ssa.Const); isC {
 				step = c.Int64()
@@ -255,10 +262,20 @@ func phiCounterBound(v ssa.Value) (lo, hi int64, ok bool) {
 	}
 	// the counter only takes the values init, init+step, ...: tighten the far end to the last value actually reached
 	if step > 0 {
+		if init != initHi {
+			// a range of starting values: no stride tightening
+			if bound < initHi {
+				bound = initHi
+			}
+			return init, bound, true
+		}
 		if bound < init {
 			return init, init, true
 		}
 		return init, init + ((bound-init)/step)*step, true
+	}
+	if init != initHi {
+		return 0, 0, false
 	}
 	if bound > init {
 		return init, init, true
@@ -463,6 +480,51 @@ func ruleIndexSites(r *rep.Report, p *load.Program, rl *roles.Roles) {
 		k := indexFamily(rl, s.fn)
 		open[k] = append(open[k], s)
 	}
+	// sites of the two arithmetic packages that no syntactic argument bounds: the exact-algebra and magnitude runs execute
+	// these packages with concrete loop counters; a site they reach with concrete indices only (and without an
+	// out-of-range error, which fails those rules) is in range for every iteration
+	{
+		need := false
+		for k, ss := range open {
+			if _, listed := indexAssumptions[k]; listed {
+				continue
+			}
+			for _, s := range ss {
+				if ps := ssau.PkgSuffix(s.fn); ps == "internal/modm" || ps == "internal/curve25519" {
+					need = true
+				}
+			}
+		}
+		if need {
+			scratch := rep.New("scratch", "quick", "other")
+			ruleExactModm(scratch, p)
+			ruleExactWindow4(scratch, p)
+			ruleMagnitudes(scratch, p, "curve25519")
+			ruleBitOrigin(scratch, p, "modm")
+			ruleBitOrigin(scratch, p, "curve25519")
+			clean := scratch.Failed() == 0
+			for k, ss := range open {
+				if _, listed := indexAssumptions[k]; listed {
+					continue
+				}
+				var rest []indexSite
+				for _, s := range ss {
+					ia, _ := s.in.(*ssa.IndexAddr)
+					ps := ssau.PkgSuffix(s.fn)
+					if clean && ia != nil && (ps == "internal/modm" || ps == "internal/curve25519") && absint.IndexConcrete[ia] && !absint.IndexAbstract[ia] {
+						done++
+						continue
+					}
+					rest = append(rest, s)
+				}
+				if len(rest) == 0 {
+					delete(open, k)
+				} else {
+					open[k] = rest
+				}
+			}
+		}
+	}
 	var names []string
 	for k := range open {
 		names = append(names, k)
@@ -514,6 +576,27 @@ func indexFamily(rl *roles.Roles, fn *ssa.Function) string {
 		for _, f := range mod {
 			if f == top {
 				return "role:bos-coster"
+			}
+		}
+	}
+	// an unexported helper called from exactly one listed function inherits that function's entry (a step moved into a
+	// helper keeps the data invariant it rests on)
+	if !token.IsExported(top.Name()) && top.Signature.Recv() == nil && callSiteIndex != nil {
+		var owner *ssa.Function
+		same := true
+		for _, c := range callSiteIndex[top] {
+			caller := c.Parent()
+			for caller.Parent() != nil {
+				caller = caller.Parent()
+			}
+			if owner != nil && owner != caller {
+				same = false
+			}
+			owner = caller
+		}
+		if same && owner != nil && owner != top {
+			if _, listed := indexAssumptions[ssau.QName(owner)]; listed {
+				return ssau.QName(owner)
 			}
 		}
 	}
